@@ -103,10 +103,11 @@ theorem C02_load_hit (env : Env) (f : Nat) (s : St) (key : Key) (c : Cell) (h : 
   simp only [eval, St.record_lookup, h, Prog.ret']
   simp
 
-/-- `get_or_insert` on a present key: same handle, nothing changes. -/
+/-- `get_or_insert` on a present key: same handle, nothing changes (the ghost ledger notes that the
+value passed in was dropped). -/
 theorem C02_getOrInsert_keeps (env : Env) (f : Nat) (s : St) (key : Key) (v : Val) (c : Cell)
     (h : s.lookup key = some c) :
-    step env f s (.getOrInsert key v) = (s, .handle c.addr c.val) := by
+    step env f s (.getOrInsert key v) = (s.handOut key.ty, .handle c.addr c.val) ∧ (s.handOut key.ty).core = s.core := by
   simp [step, h]
 
 /-- `get_or_insert` on an absent key adds exactly this key with exactly this value. -/
@@ -119,6 +120,7 @@ theorem C02_getOrInsert_adds (env : Env) (f : Nat) (s : St) (key : Key) (v : Val
   · have := (St.insertKeepFirst_lookup s key { val := v, dyn := insertedEntryDynamic (env.types key.ty).hot env.hasReloader, rid := ReloadId_NEVER, flag := false, addr := s.next })
     simp only [h, Option.getD_none] at this
     show Option.map _ (St.lookup _ key) = _
+    simp only [St.own_lookup]
     simp only [St.lookup] at this ⊢
     rw [this.1, this.2]; rfl
   · intro k' hk
@@ -170,9 +172,9 @@ theorem C02_failed_load_adds_nothing_of_its_own (env : Env) (f : Nat) (s : St) (
 /-- `load_owned` never caches the asset it returns: the state afterwards is what evaluating the
 loader left. -/
 theorem C02_load_owned_adds_nothing_of_its_own (env : Env) (f : Nat) (s : St) (key : Key) :
-    (eval env (f+2) s (.loadOwned key Prog.ret')).1 =
+    (eval env (f+2) s (.loadOwned key Prog.ret')).1.core =
       (loadAndRecord env (fun s => eval env (f+1) s ((env.types key.ty).prog key.id)) key
-        (s.record (recordsAsset (env.types key.ty).hot env.hasReloader) (.asset key))).1 := by
+        (s.record (recordsAsset (env.types key.ty).hot env.hasReloader) (.asset key))).1.core := by
   simp only [eval]
   generalize loadAndRecord env _ key _ = r
   obtain ⟨s1, o⟩ := r
